@@ -65,7 +65,15 @@ type Event struct {
 	I int    `json:"i,omitempty"`
 	D int64  `json:"d,omitempty"`
 	N int    `json:"n,omitempty"`
+	// F (replica rounds only): a connection error of a request thread lands INSIDE this round —
+	// the real getConnWithFuse(replica I) is called from inside the scripted answer of replica
+	// I's probe at hook F: "getcheck" (the check connection is being obtained), "hsql" (the
+	// health SQL is being executed) or "sync" (`show slave status`, i.e. after the liveness
+	// and master checks of the round, before its recovery decision).
+	F string `json:"f,omitempty"`
 }
+
+var Hooks = []string{"getcheck", "hsql", "sync"}
 
 // Out is the scripted probe outcome of replica i in a replica round.
 func (e Event) Out(i int) string {
@@ -88,6 +96,9 @@ func (e Event) String() string {
 	}
 	if e.N > 1 {
 		return fmt.Sprintf("%s:%sx%d", e.K, a, e.N)
+	}
+	if e.F != "" {
+		return fmt.Sprintf("%s:%s+fuse%d@%s", e.K, a, e.I, e.F)
 	}
 	return e.K + ":" + a
 }
@@ -122,12 +133,30 @@ type World struct {
 	mOut    string   // scripted outcome of the next master probe
 	rOut    []string // scripted outcome of the next probe of replica i
 	failGet int      // index of the replica whose pool Get fails with a connection error (-1: none)
+	// fuse inside the current replica round: hook name, replica, and whether the hook was reached
+	fuseHook  string
+	fuseIdx   int
+	HookFired bool
 	Died    string   // set when a health-check loop returned by itself
 }
 
-func (w *World) script(out *string, replica bool) func(p *fakepool.Pool) (backend.PooledConnect, error) {
+// hook is called from inside the scripted probe answers of replica idx: when the current round
+// carries a fuse for this replica at this position, a request thread's connection error is
+// delivered right here (real getConnWithFuse -> TryFuse), once.
+func (w *World) hook(idx int, name string) {
+	if idx < 0 || w.fuseHook != name || w.fuseIdx != idx || w.HookFired {
+		return
+	}
+	w.HookFired = true
+	w.failGet = idx
+	_, _ = backend.VerifGetConnWithFuse(w.Slice, w.Reps[idx])
+	w.failGet = -1
+}
+
+func (w *World) script(out *string, idx int) func(p *fakepool.Pool) (backend.PooledConnect, error) {
 	return func(p *fakepool.Pool) (backend.PooledConnect, error) {
 		o := *out
+		w.hook(idx, "getcheck")
 		if o == "conn_fail" {
 			return nil, errors.New("dial tcp: connection refused")
 		}
@@ -141,6 +170,7 @@ func (w *World) script(out *string, replica bool) func(p *fakepool.Pool) (backen
 		c.ExecFn = func(_ *fakepool.Conn, sql string) (*mysql.Result, error) {
 			switch {
 			case sql == healthSQL:
+				w.hook(idx, "hsql")
 				switch o {
 				case "hsql_fatal":
 					return nil, mysql.NewError(mysql.ErrServerShutdown, "Server shutdown in progress")
@@ -154,6 +184,7 @@ func (w *World) script(out *string, replica bool) func(p *fakepool.Pool) (backen
 				}
 				return fakepool.EmptyResult(), nil
 			case strings.HasPrefix(sql, "show slave status"):
+				w.hook(idx, "sync")
 				lim := uint64(w.Cfg.LagLimit)
 				switch o {
 				case "lag_below":
@@ -187,7 +218,7 @@ func New(c Cfg) *World {
 	w.mPool = fakepool.New("10.0.0.1:3306", "dc")
 	w.mPool.Clock = clock
 	w.mPool.ForceLastChecked(c.Start) // connectionPoolImpl starts with lastChecked = creation time
-	w.mPool.GetCheckFn = w.script(&w.mOut, false)
+	w.mPool.GetCheckFn = w.script(&w.mOut, -1)
 	w.Master = &backend.NodeInfo{Address: w.mPool.AddrS, Datacenter: "dc", Weight: 1, ConnPool: w.mPool, Status: backend.StatusUp}
 	w.rOut = make([]string, c.NRep())
 	slave := &backend.DBInfo{}
@@ -197,7 +228,7 @@ func New(c Cfg) *World {
 		p := fakepool.New(fmt.Sprintf("10.0.0.%d:3306", 2+i), "dc")
 		p.Clock = clock
 		p.ForceLastChecked(c.Start)
-		p.GetCheckFn = w.script(&w.rOut[i], true)
+		p.GetCheckFn = w.script(&w.rOut[i], i)
 		p.GetFn = func(p *fakepool.Pool) (backend.PooledConnect, error) {
 			if w.failGet == i {
 				return nil, mysql.NewConnTypeError(p.AddrS, "failed to dial")
@@ -356,11 +387,13 @@ func (w *World) Apply(e Event) {
 		for i := range w.rOut {
 			w.rOut[i] = e.Out(i)
 		}
+		w.fuseHook, w.fuseIdx, w.HookFired = e.F, e.I, false
 		if !w.runLoopOnce("replica", func(ctx context.Context) {
 			backend.VerifRunSlaveLoop(w.Slice, ctx, w.Slice.Slave, w.Cfg.DownAfter, w.Cfg.LagLimit)
 		}) {
 			w.Died = "replica"
 		}
+		w.fuseHook = ""
 	default:
 		ev.Fatalf("unknown event %+v", e)
 	}
